@@ -12,7 +12,11 @@
 (* post-state with the exact functional model; a divergence is attributed  *)
 (* to the property whose footprint contains the diverging field, or to     *)
 (* "MODEL" when it belongs to no property of this module (development      *)
-(* gate: the _all configuration must accept the unchanged tree).           *)
+(* gate); an index image that differs from the model is attributed to C21  *)
+(* only when the records agree with the model (otherwise the index may     *)
+(* well agree with the diverging records, which is all C21 states; the     *)
+(* property-level Inv_C21 decides).  (The                                  *)
+(* _all configuration must accept the unchanged tree.)                     *)
 (*                                                                         *)
 (* Ghosts (small state variables): donated = coins sent to the pool        *)
 (* address by successful send transactions (known finding of C19);         *)
@@ -50,7 +54,7 @@ BeginTags(pre, c, e) ==
     IN IfTag(Step_C25_Slash(pre, post, c), "C25")
        \cup IfTag(Step_C24_Leave(pre, post, c, e.h, FALSE) /\ Step_C24_NoEarly(pre, post), "C24")
        \cup (IF d \cap {"val", "signing", "missed", "ixWaiting", "supply"} # {} \/ poolDiffers THEN {"C25"} ELSE {})
-       \cup (IF d \cap {"ixStaked", "ixChain", "ixUnstaking"} # {} THEN {"C21"} ELSE {})
+       \cup (IF d \cap {"ixStaked", "ixChain", "ixUnstaking"} # {} /\ "val" \notin d THEN {"C21"} ELSE {})
        \cup (IF d \cap {"tmSet", "prevPower", "prevTotal"} # {} THEN {"C22"} ELSE {})
        \cup (IF d \cap {"prevProposer", "nopk", "badCoins", "rest"} # {} \/ ("bal" \in d /\ ~poolDiffers) THEN {"MODEL"} ELSE {})
 
@@ -61,7 +65,7 @@ ChallengeTags(pre, c, e) ==
         d    == Diff(want, post)
     IN IfTag(Step_C25_Slash(pre, post, c), "C25")
        \cup (IF d \cap {"val", "signing", "missed", "ixWaiting", "supply", "bal"} # {} THEN {"C25"} ELSE {})
-       \cup (IF d \cap {"ixStaked", "ixChain", "ixUnstaking"} # {} THEN {"C21"} ELSE {})
+       \cup (IF d \cap {"ixStaked", "ixChain", "ixUnstaking"} # {} /\ "val" \notin d THEN {"C21"} ELSE {})
        \cup (IF d \ {"val", "signing", "missed", "ixWaiting", "supply", "bal", "ixStaked", "ixChain", "ixUnstaking"} # {} THEN {"MODEL"} ELSE {})
 
 \* ---- DeliverTx -----------------------------------------------------------------
@@ -96,7 +100,7 @@ DeliverTags(pre, c, e) ==
        \cup IfTag(Step_C24_Leave(pre, post, c, e.h, FALSE) /\ Step_C24_NoEarly(pre, post), "C24")
        \cup (IF UnjailMismatch(pre, c, e) /\ ~KnownEditBypass(e) /\ ~KnownWallClock(e) THEN {"C25"} ELSE {})
        \cup (IF d # {} \/ (e.res.code = 0) # okW THEN {KindTag(pre, tx)} ELSE {})
-       \cup (IF d \cap {"ixStaked", "ixChain", "ixUnstaking"} # {} THEN {"C21"} ELSE {})
+       \cup (IF d \cap {"ixStaked", "ixChain", "ixUnstaking"} # {} /\ "val" \notin d THEN {"C21"} ELSE {})
        \cup (IF newCfg # NodesDeliverCfg(pre, c, tx, e.h, e.t) THEN {"MODEL"} ELSE {})
 
 \* ---- EndBlock ------------------------------------------------------------------
@@ -112,7 +116,7 @@ EndTags(pre, c, e) ==
        \cup IfTag(Inv_C19_Pool(post, donated), "C19")
        \cup (IF d \cap {"tmSet", "prevPower", "prevTotal"} # {} \/ r.ups # e.updates THEN {"C22"} ELSE {})
        \cup (IF d \cap {"val", "ixWaiting", "bal", "supply"} # {} THEN {"C24"} ELSE {})
-       \cup (IF d \cap {"ixStaked", "ixChain", "ixUnstaking"} # {} THEN {"C21"} ELSE {})
+       \cup (IF d \cap {"ixStaked", "ixChain", "ixUnstaking"} # {} /\ "val" \notin d THEN {"C21"} ELSE {})
        \cup (IF d \cap {"signing", "missed"} # {} THEN {"C25"} ELSE {})
        \cup (IF d \cap {"prevProposer", "nopk", "badCoins", "rest"} # {} THEN {"MODEL"} ELSE {})
 
